@@ -54,7 +54,11 @@ CONTRACTS = [
        yields=_yields("stream.pos", "D0") + [("frame", "stream.data == D0")],
        ends=[("C10-ends-only-at-a-record-boundary", "P == len(D0) and stream.pos == len(D0)"), ("frame", "stream.data == D0")],
        raises=[("ValueError", "may", ""), ("EOFError", "may", "")],
-       use=[("SLICE_TAIL", {"d": "D0", "p": "P", "q": "len(D0)"}), ("SLICE_TAIL", {"d": "D0", "p": "P", "q": "P + 1"}),
+       assert_after_assign={"number": ["stream.pos == P + len(raw) and len(raw) == VLEN(D0[P:]) and num_wire == VDEC(D0[P:P + len(raw)])"
+                                       " and raw == D0[P:P + len(raw)] and P + len(raw) <= len(D0)"]},
+       use=[("SLICE_CONCAT", {"d": "D0", "p": "P", "q": "P + VLEN(D0[P:])", "r": "stream.pos"}),
+            ("SLICE_CONCAT", {"d": "D0", "p": "P + VLEN(D0[P:])", "q": "stream.pos - len(as_bytes(yielded.value))", "r": "stream.pos"}),
+            ("SLICE_TAIL", {"d": "D0", "p": "P", "q": "len(D0)"}), ("SLICE_TAIL", {"d": "D0", "p": "P", "q": "P + 1"}),
             ("SLICE_TAIL", {"d": "D0", "p": "P", "q": "P + VLEN(D0[P:])"})],
        props=["C08", "C10", "C17", "C01", "C02"]),
     FN("betterproto.parse_fields", generator=True,
